@@ -302,6 +302,7 @@ def generated() -> dict[str, bytes]:
     g["gen/c.html"] = b"<html><head><title>Third</title></head><body><p>third body</p></body></html>"
     g["gen/deeper.html"] = b"<html><body>" + b"<div>" * 30000 + b"very deep" + b"</div>" * 30000 + b"</body></html>"
     g["gen/hebrew.html"] = (b'<html><head><meta charset="iso-8859-8-i"><title>t</title></head><body><p>' + "שלום עולם".encode("iso-8859-8") + b"</p></body></html>")
+    g["gen/utf7.html"] = b'<html><head><meta charset="utf-7"><title>plain title</title></head><body><p>smile +2D3eAA- and half +2AA- a pair</p></body></html>'
     g["gen/arabic.html"] = (b'<html><head><meta charset="windows-874"><title>t</title></head><body><p>\xa1\xa2\xa3 thai</p></body></html>')
     g["gen/a.mhtml"] = MHTML1
     g["gen/a.mht"] = MHTML1
